@@ -162,11 +162,49 @@ func drawCase(t *rapid.T, sysName string) listCase {
 		}
 		list = append(list, r)
 	}
+	// npm: a sixth of the cases put the latest tag on a prerelease and ask for
+	// a window of prereleases around it (the tag's special position depends on
+	// whether releases exist in the list, not among the matches)
+	if sysName == "NPM" && rapid.IntRange(0, 5).Draw(t, "prelatest") == 0 {
+		T := rapid.SampledFrom([]string{"1.0.0", "2.0.0"}).Draw(t, "T")
+		lo, hi := T+"-alpha", T+rapid.SampledFrom([]string{"-beta.2", "-rc.1"}).Draw(t, "hi")
+		keep := list[:0:0]
+		for _, r := range list {
+			if r.Version != lo && r.Version != hi && !strings.Contains(r.Tags, "latest") {
+				keep = append(keep, r)
+			}
+		}
+		list = append(keep, refmodel.Rec{Version: lo, Tags: "latest"}, refmodel.Rec{Version: hi})
+		if rapid.Bool().Draw(t, "lowrelease") {
+			list = append(list, refmodel.Rec{Version: "0.8.0"})
+		}
+		perm := rapid.Permutation(seq(len(list))).Draw(t, "listorder")
+		shuffled := make([]refmodel.Rec, len(list))
+		for i, k := range perm {
+			shuffled[i] = list[k]
+		}
+		list = shuffled
+		req := rapid.SampledFrom([]string{">=" + lo + " <" + T, ">=" + lo, lo + " || " + hi, "^" + lo, ">" + lo, "<=" + hi, ">=" + lo + " <=" + hi}).Draw(t, "prereq")
+		return listCase{System: sysName, Req: req, List: list}
+	}
 	var req string
 	sv := systems[sysName].Semver()
 	switch k := rapid.IntRange(0, 9).Draw(t, "reqkind"); {
-	case k < 5:
+	case k < 3 || len(list) == 0:
 		req = gen.Constraint(sv).Draw(t, "range")
+	case k < 5:
+		// a requirement written with versions of the list itself: bounds fall on
+		// and between listed versions, prereleases and tagged versions included
+		a := list[rapid.IntRange(0, len(list)-1).Draw(t, "aima")].Version
+		b := list[rapid.IntRange(0, len(list)-1).Draw(t, "aimb")].Version
+		switch sysName {
+		case "NPM":
+			req = rapid.SampledFrom([]string{">=" + a, ">=" + a + " <" + b, a + " || " + b, "<=" + a, ">" + a, "^" + a, "~" + a, ">=" + a + " <=" + b}).Draw(t, "aimform")
+		case "Maven":
+			req = rapid.SampledFrom([]string{"[" + a + ",)", "[" + a + "," + b + ")", "[" + a + "],[" + b + "]", "(," + a + "]", "(" + a + ",)", "[" + a + "," + b + "]", a}).Draw(t, "aimform")
+		default:
+			req = rapid.SampledFrom([]string{">=" + a, ">=" + a + ",<" + b, "<=" + a, ">" + a, "==" + a, "!=" + a, "~=" + a, ">=" + a + ",<=" + b}).Draw(t, "aimform")
+		}
 	case k < 6 && sysName == "NPM":
 		req = rapid.SampledFrom([]string{"latest", "next", "beta", "nope", "latest-0"}).Draw(t, "tagreq")
 	case k < 8 && len(list) > 0:
